@@ -13,6 +13,8 @@ CONSTANTS
   AllowKick = TRUE
   AllowQuit = TRUE
   Sequential = FALSE
+  FirstRound = FALSE
+  AckThenInstall = FALSE
   Export = FALSE
 VIEW View
 INVARIANTS AtMostOneInFlight SlotTracksAttempt QuiescentClean
